@@ -64,9 +64,16 @@ Definition grp (sp : Z) : Z :=
   else if (6 <=? sp) && (sp <=? 8) then 2 else 3.
 Definition PATTERN_SPACE : Z := 9.
 
+Definition oz_eqb (x y : option Z) : bool :=
+  match x, y with Some a, Some b => a =? b | None, None => true | _, _ => false end.
+Definition gsval_eqb (v w : gsval) : bool := oz_eqb (fst v) (fst w) && oz_eqb (snd v) (snd w).
+(* the content Stream.set_alpha stores under an alpha key *)
+Definition canon (k : key) : gsval :=
+  match k with KA true a _ => (None, Some a) | KA false a _ => (Some a, None) | KS _ => (None, None) end.
+
 Inductive tok :=
 | Tq | TQ | TBT | TET
-| Tgs (k : key)
+| Tgs (k : key) (v : gsval)               (* /name gs ; v = what the Stream stored under that name *)
 | Trg (stroke : bool) (c : color)          (* r g b rg / RG *)
 | Tcs (stroke : bool) (g : Z)              (* /name cs / CS : 1 lab-d65, 2 lab-d50, 9 Pattern *)
 | Tscn (stroke : bool) (c : color)         (* l a b scn / SCN *)
@@ -80,7 +87,7 @@ Inductive tok :=
 Definition tok_eqb (t u : tok) : bool :=
   match t, u with
   | Tq, Tq | TQ, TQ | TBT, TBT | TET, TET | Ttag, Ttag | TBMC, TBMC | TBDC, TBDC | TEMC, TEMC => true
-  | Tgs k, Tgs k' => key_eqb k k'
+  | Tgs k v, Tgs k' v' => key_eqb k k' && gsval_eqb v v'
   | Trg s c, Trg s' c' | Tscn s c, Tscn s' c' => Bool.eqb s s' && color_eqb c c'
   | Tcs s g, Tcs s' g' | Tpat s g, Tpat s' g' => Bool.eqb s s' && (g =? g')
   | Tfont f, Tfont f' => font_eqb f f'
@@ -159,11 +166,11 @@ Definition m_alpha1 (stroke : bool) (a : Z) (isint : bool) (s : st) : st :=
   let cur := if stroke then calphas s else calpha s in
   if opt_eqb key_eqb cur k then s
   else
-    let d := add_if_absent k (if stroke then (None, Some a) else (Some a, None)) (egs s) in
+    let d := add_if_absent k (canon k) (egs s) in
     let s1 := if stroke
               then mk (toks s) (ctms s) (ccol s) (ccols s) (calpha s) (Some k) (cfont s) (ofont s) d (nmark s) (markon s)
               else mk (toks s) (ctms s) (ccol s) (ccols s) (Some k) (calphas s) (cfont s) (ofont s) d (nmark s) (markon s) in
-    emit (Tgs k) s1.
+    emit (Tgs k (canon k)) s1.
 
 Definition m_set_alpha (a : Z) (isint stroke : bool) (fill : option bool) (s : st) : st :=
   let fill' := match fill with Some f => f | None => negb stroke end in
@@ -194,7 +201,7 @@ Definition with_egs (d : egsd) (s : st) : st :=
 
 Definition m_set_state (v : gsval) (s : st) : st :=
   let k := KS (Z.of_nat (length (egs s))) in
-  emit (Tgs k) (with_egs (assign k v (egs s)) s).
+  emit (Tgs k v) (with_egs (assign k v (egs s)) s).
 
 Definition m_begin_mc (mcid : bool) (s : st) : st :=
   if markon s then
@@ -238,8 +245,7 @@ Definition nemit (t : tok) (n : nst) : nst := nmk (t :: ntoks n) (negs n) (nnmar
 
 Definition n_alpha1 (stroke : bool) (a : Z) (isint : bool) (n : nst) : nst :=
   let k := KA stroke a isint in
-  nemit (Tgs k) (nmk (ntoks n) (add_if_absent k (if stroke then (None, Some a) else (Some a, None)) (negs n))
-                     (nnmark n) (nmarkon n)).
+  nemit (Tgs k (canon k)) (nmk (ntoks n) (add_if_absent k (canon k) (negs n)) (nnmark n) (nmarkon n)).
 Definition n_set_alpha (a : Z) (isint stroke : bool) (fill : option bool) (n : nst) : nst :=
   let fill' := match fill with Some f => f | None => negb stroke end in
   let n1 := if stroke then n_alpha1 true a isint n else n in
@@ -259,7 +265,7 @@ Definition nstep (o : op) (n : nst) : nst :=
   | SetFont f => nemit (Tfont f) n
   | SetState ca CA =>
       let k := KS (Z.of_nat (length (negs n))) in
-      nemit (Tgs k) (nmk (ntoks n) (assign k (ca, CA) (negs n)) (nnmark n) (nmarkon n))
+      nemit (Tgs k (ca, CA)) (nmk (ntoks n) (assign k (ca, CA) (negs n)) (nnmark n) (nmarkon n))
   | PatternColor stroke p => nemit (Tpat stroke p) (nemit (Tcs stroke PATTERN_SPACE) n)
   | Transform m => nemit (Tcm m) n
   | TextMatrix m => nemit (Ttm m) n
@@ -305,8 +311,9 @@ Definition apply_gs (v : gsval) (g : gst) : gst :=
   gmk (g_fill g) (g_stroke g) (match fst v with Some a => a | None => g_ca g end)
       (match snd v with Some a => a | None => g_CA g end) (g_font g) (g_ctm g).
 
-(* D : the ExtGState resource dictionary of the finalised stream *)
-Definition istep (D : egsd) (t : tok) (i : ist) : ist :=
+(* `gs` applies the dictionary stored under the name (theorem gs_names_defined: the finalised resource dictionary
+   still maps the name to that content) *)
+Definition istep (t : tok) (i : ist) : ist :=
   match t with
   | Tq => if i_text i then ierr i else imk (i_g i) (i_g i :: i_stack i) (i_text i) (i_tm i) (i_obs i) (i_err i)
   | TQ => match i_stack i with
@@ -315,7 +322,7 @@ Definition istep (D : egsd) (t : tok) (i : ist) : ist :=
           end
   | TBT => if i_text i then ierr i else imk (i_g i) (i_stack i) true None (i_obs i) (i_err i)
   | TET => if i_text i then imk (i_g i) (i_stack i) false None (i_obs i) (i_err i) else ierr i
-  | Tgs k => match lookup k D with Some v => with_g (apply_gs v (i_g i)) i | None => ierr i end
+  | Tgs k v => with_g (apply_gs v (i_g i)) i
   | Trg s c | Tscn s c => with_g (set_col s (PCol c) (i_g i)) i
   | Tcs s g => with_g (set_col s (PSpace g) (i_g i)) i
   | Tpat s p => with_g (set_col s (PPat p) (i_g i)) i
@@ -329,13 +336,13 @@ Definition istep (D : egsd) (t : tok) (i : ist) : ist :=
   end.
 
 (* interpretation of a token list given last-item-first (the way the model stores it) *)
-Fixpoint interp_rev (D : egsd) (l : list tok) : ist :=
+Fixpoint interp_rev (l : list tok) : ist :=
   match l with
   | [] => i0
-  | t :: r => istep D t (interp_rev D r)
+  | t :: r => istep t (interp_rev r)
   end.
 (* ... and in reading order *)
-Definition interp (D : egsd) (l : list tok) : ist := fold_left (fun i t => istep D t i) l i0.
+Definition interp (l : list tok) : ist := fold_left (fun i t => istep t i) l i0.
 
 Definition obs_eqb (x y : obs) : bool :=
   let '(k, g, t, m) := x in let '(k', g', t', m') := y in
@@ -459,13 +466,9 @@ Definition raw_free (o : op) : bool :=
 (* every s<n> key is below the size of the dictionary: what makes `s{len(dict)}` a fresh name *)
 Definition key_ok (n : nat) (k : key) : bool := match k with KS m => (0 <=? m) && (m <? Z.of_nat n) | KA _ _ _ => true end.
 (* ... and the alpha keys carry the content Stream.set_alpha gives them *)
-Definition canon (k : key) : gsval :=
-  match k with KA true a _ => (None, Some a) | KA false a _ => (Some a, None) | KS _ => (None, None) end.
-Definition oz_eqb (x y : option Z) : bool :=
-  match x, y with Some a, Some b => a =? b | None, None => true | _, _ => false end.
 Definition canon_ok (kv : key * gsval) : bool :=
   match fst kv with
-  | KA _ _ _ => oz_eqb (fst (snd kv)) (fst (canon (fst kv))) && oz_eqb (snd (snd kv)) (snd (canon (fst kv)))
+  | KA _ _ _ => gsval_eqb (snd kv) (canon (fst kv))
   | KS _ => true
   end.
 Definition egs_wf (d : egsd) : bool := forallb (fun kv => key_ok (length d) (fst kv) && canon_ok kv) d.
@@ -481,7 +484,7 @@ Record implout := iomk {
   io_col : option color; io_cols : option color;
   io_alpha : option key; io_alphas : option key;
   io_font : option font; io_ofont : option font;
-  io_keys : list key;               (* keys of _resources['ExtGState'] in dictionary order *)
+  io_keys : list (key * gsval);     (* _resources['ExtGState'] in dictionary order: name, (/ca, /CA) *)
   io_nmark : Z }.
 
 Definition out_matches (s : st) (o : implout) : bool :=
@@ -489,7 +492,7 @@ Definition out_matches (s : st) (o : implout) : bool :=
   opt_b color_eqb (ccol s) (io_col o) && opt_b color_eqb (ccols s) (io_cols o) &&
   opt_b key_eqb (calpha s) (io_alpha o) && opt_b key_eqb (calphas s) (io_alphas o) &&
   opt_b font_eqb (cfont s) (io_font o) && opt_b font_eqb (ofont s) (io_ofont o) &&
-  list_eqb key_eqb (map fst (egs s)) (io_keys o) && (nmark s =? io_nmark o).
+  list_eqb (fun x y => key_eqb (fst x) (fst y) && gsval_eqb (snd x) (snd y)) (egs s) (io_keys o) && (nmark s =? io_nmark o).
 
 (* bit 0: model <> implementation.  bit 1: the implementation's tokens violate the bracket specification although
    the calls were well bracketed.  bit 2: the rendering of the implementation's tokens differs from the
@@ -503,8 +506,7 @@ Definition stream_judge (c : bool * list key * list op * option implout) : nat :
   | None, None => 0
   | Some s, Some o =>
       let n := nrun ops (nfresh mark d0) in
-      let D := egs s in
-      let same := same_rendering (interp D (io_toks o)) (interp D (rev (ntoks n))) in
+      let same := same_rendering (interp (io_toks o)) (interp (rev (ntoks n))) in
       let pre := wb ops && tm_disciplined false ops && egs_wf d0 in
       ((if out_matches s o then 0 else 1) +
        (if wb ops && negb (nested (io_toks o) && dyck_q (io_toks o) && dyck_text (io_toks o) && dyck_mc (io_toks o)
